@@ -5,16 +5,17 @@ Local Open Scope Z_scope.
 
 (* wire form of one case (printed by harness/C19/*.go) *)
 Inductive vcase :=
-| CRecv (ops : list (Z * (Z * bool))) (obs : list Z)
-    (* op = (signal 0 traces|1 metrics|2 logs, (items, downstream error?)) *)
-| CScr (kind : Z) (ops : list (list (Z * (Z * (Z * Z))) * bool)) (obs : list Z)
+| CRecv (recording : bool) (ops : list (Z * (Z * bool))) (obs : list Z)
+    (* recording = the tracer provider yields recording spans;
+       op = (signal 0 traces|1 metrics|2 logs, (items, downstream error?)) *)
+| CScr (recording : bool) (kind : Z) (ops : list (list (Z * (Z * (Z * Z))) * bool)) (obs : list Z)
     (* kind 0 metrics | 1 logs; op = (scrapers, consumer error?);
        scraper = (items, (metric count, (0 ok | 1 partial | 2 error, failed))) *)
 | CProc (sig : Z) (ops : list (Z * (Z * (Z * bool)))) (obs : list Z)
     (* op = (items in, (0 forward | 1 error | 2 skip, (items out, next consumer error?))) *)
 | CExp (cfg : list Z) (outs : list (Z * Z)) (ops : list (Z * list Z)) (obs : list Z) (gauges : list Z) (extra : list Z).
     (* cfg = [signal; queue; storage; items sizer; capacity; wait_for_result; qbatch?; qmin; qmax;
-              batcher?; bmin; bmax; retry];  out = (0 ok|1 transient|2 permanent|3 partial|4 hang, k);
+              batcher?; bmin; bmax; retry; tracing (spans recording)];  out = (0 ok|1 transient|2 permanent|3 partial|4 hang, k);
        op = (0,[n]) offer | (1, ns) burst | (2,[]) flush timer;
        obs = counter vector after shutdown; gauges = queue-size gauge after each op;
        extra = [capacity gauge; items still stored after shutdown] *)
@@ -28,12 +29,15 @@ Definition universe : list counter :=
    ScrScraped Metrics; ScrErrored Metrics; ScrScraped Logs; ScrErrored Logs;
    ProcIn Traces; ProcIn Metrics; ProcIn Logs; ProcOut Traces; ProcOut Metrics; ProcOut Logs;
    ExpSent Traces; ExpSent Metrics; ExpSent Logs; ExpFailed Traces; ExpFailed Metrics; ExpFailed Logs;
-   ExpEnqFailed Traces; ExpEnqFailed Metrics; ExpEnqFailed Logs].
+   ExpEnqFailed Traces; ExpEnqFailed Metrics; ExpEnqFailed Logs;
+   SpanAcc Traces; SpanRef Traces; SpanAcc Metrics; SpanRef Metrics; SpanAcc Logs; SpanRef Logs;
+   SpanScraped Metrics; SpanErrored Metrics; SpanScraped Logs; SpanErrored Logs;
+   SpanSent Traces; SpanSent Metrics; SpanSent Logs; SpanFailed Traces; SpanFailed Metrics; SpanFailed Logs].
 
 Definition vec (l : ledger) : list Z := map (fun c => lget c l) universe.
 
-Definition recv_ops (ops : list (Z * (Z * bool))) : list recv_op :=
-  map (fun p => {| ro_sig := sig_of_Z (fst p); ro_n := fst (snd p); ro_err := snd (snd p) |}) ops.
+Definition recv_ops (recording : bool) (ops : list (Z * (Z * bool))) : list recv_op :=
+  map (fun p => {| ro_sig := sig_of_Z (fst p); ro_n := fst (snd p); ro_err := snd (snd p); ro_rec := recording |}) ops.
 
 Definition scr_res_of (p : Z * (Z * (Z * Z))) : scr_res :=
   let '(it, (mc, (ek, f))) := p in
@@ -58,7 +62,7 @@ Definition eopts_of (cfg : list Z) : eopts :=
      o_cap := g 4%nat; o_wfr := zb (g 5%nat);
      o_qbatch := if zb (g 6%nat) then Some (g 7%nat, g 8%nat) else None;
      o_batcher := if zb (g 9%nat) then Some (g 10%nat, g 11%nat) else None;
-     o_retry := zb (g 12%nat) |}.
+     o_retry := zb (g 12%nat); o_tracing := zb (g 13%nat) |}.
 
 Definition aout_of (p : Z * Z) : aout :=
   let '(c, k) := p in
@@ -80,15 +84,15 @@ Definition exp_out (cfg : list Z) (outs : list (Z * Z)) (ops : list (Z * list Z)
 
 Definition model_out (c : vcase) : list Z * (list Z * list Z) :=
   match c with
-  | CRecv ops _ => (vec (recv_run (recv_ops ops)), ([], []))
-  | CScr k ops _ => (vec (scr_run (kind_of_Z k) (scr_ops ops)), ([], []))
+  | CRecv rc ops _ => (vec (recv_run (recv_ops rc ops)), ([], []))
+  | CScr rc k ops _ => (vec (scr_run rc (kind_of_Z k) (scr_ops ops)), ([], []))
   | CProc s ops _ => (vec (proc_run (sig_of_Z s) (proc_ops ops)), ([], []))
   | CExp cfg outs ops _ _ _ => exp_out cfg outs ops
   end.
 
 Definition check_case (c : vcase) : bool :=
   match c with
-  | CRecv _ obs | CScr _ _ obs | CProc _ _ obs => zlist_eqb (fst (model_out c)) obs
+  | CRecv _ _ obs | CScr _ _ _ obs | CProc _ _ obs => zlist_eqb (fst (model_out c)) obs
   | CExp _ _ _ obs g x =>
       let '(v, (mg, mx)) := model_out c in
       zlist_eqb v obs && zlist_eqb mg g && zlist_eqb mx x
